@@ -954,11 +954,11 @@ def prof_dual(rng, n, tier):
     return out
 PROFILES["dual"] = prof_dual
 
-def prof_race(rng, n, tier):
+def prof_race(rng, n, tier, cache=None, tag="rac"):
     """C11: goroutines that each own trees derived from common persisted roots, one store, one cache"""
     out = []
     for i in range(n):
-        h = H("rac%d" % i, rng, cache=rng.choice(["big", "tiny", "big", "none"]), kind=rng.choice([0, 0, 1, 2, 5]), vt=rng.choice(["int", "raw"]), bfs=[2, 3, 4, 16])
+        h = H("%s%d" % (tag, i), rng, cache=cache or rng.choice(["big", "tiny", "big", "none"]), kind=rng.choice([0, 0, 1, 2, 5]), vt=rng.choice(["int", "raw"]), bfs=[2, 3, 4, 16])
         t0 = h.new()
         build_tree(h, t0, rng.choice([5, 20, 60, 150]))
         r0 = h.mkroot(t0)
